@@ -378,3 +378,121 @@ Proof.
 Qed.
 
 End Scan.
+Definition fle (off : nat) (f : nat * nat) : Prop := snd f <> 0 -> fst f <= off.
+
+Lemma skipline_ge m b len : forall fuel2 off off1,
+    (fix skipline (fuel2 : nat) (off : nat) : Cres nat :=
+       match fuel2 with
+       | O => OutOfFuel
+       | S f2 =>
+           if Nat.ltb off len then
+             do x <- rd m (b + off);
+             if is_eol x then Ok off else skipline f2 (S off)
+           else Ok off
+       end) fuel2 off = Ok off1 -> off <= off1.
+Proof.
+  induction fuel2 as [|f2 IH]; intros off off1 E; [discriminate|].
+  destruct (Nat.ltb off len); [|inversion E; lia].
+  destruct (rd m (b + off)) as [x| |]; cbn [bind] in E; try discriminate.
+  destruct (is_eol x); [inversion E; lia|]. apply IH in E. lia.
+Qed.
+
+Lemma qh_scan_S fu m b len off ctype cenc : qh_scan (S fu) m b len off ctype cenc =
+      if Nat.ltb off len then
+        do c <- rd m (b + off);
+        if N.eqb c CR then
+          let off := S off in
+          do off <- (if Nat.ltb off len then do c2 <- rd m (b + off); Ok (if N.eqb c2 LF then S off else off) else Ok off);
+          if Nat.eqb off len then qh_scan fu m b len off ctype cenc else
+          do c3 <- rd m (b + off);
+          if is_eol c3 then Ok (off, off, ctype, cenc) else qh_scan fu m b len off ctype cenc
+        else if N.eqb c LF then
+          let off := S off in
+          if Nat.eqb off len then qh_scan fu m b len off ctype cenc else
+          do c3 <- rd m (b + off);
+          if is_eol c3 then Ok (off, off, ctype, cenc) else qh_scan fu m b len off ctype cenc
+        else
+          (* case 'c' / 'C' first, then the default: skip to the end of the line *)
+          let skip :=
+            (fix skipline (fuel2 : nat) (off : nat) : Cres nat :=
+               match fuel2 with
+               | O => OutOfFuel
+               | S f2 =>
+                   if Nat.ltb off len then
+                     do x <- rd m (b + off);
+                     if is_eol x then Ok off else skipline f2 (S off)
+                   else Ok off
+               end) (S len) (S off) in
+          let dflt (ctype cenc : nat * nat) :=
+            do off1 <- skip; qh_scan fu m b len off1 ctype cenc in
+          if N.eqb c 99 || N.eqb c 67 then
+            let rest := len - off in
+            do isct <- (if Nat.ltb (length CT_TAIL) rest then casecmp_at m (b + S off) CT_TAIL else Ok false);
+            if isct then
+              do fl <- getfieldlen m (b + off) (len - off);
+              if negb (Nat.eqb fl 0) then
+                if Nat.ltb fl 2 then Crash 31%N else
+                qh_scan fu m b len (off + fl - 2) (off, fl) cenc
+              else dflt (fst ctype, 0) cenc
+            else
+              do iscte <- (if Nat.ltb (length CTE_TAIL) rest then casecmp_at m (b + S off) CTE_TAIL else Ok false);
+              if iscte then
+                do fl <- getfieldlen m (b + off) (len - off);
+                if negb (Nat.eqb fl 0) then
+                  if Nat.ltb fl 2 then Crash 31%N else
+                  qh_scan fu m b len (off + fl - 2) ctype (off, fl)
+                else dflt ctype (fst cenc, 0)
+              else dflt ctype cenc
+          else dflt ctype cenc
+      else Ok (0, off, ctype, cenc).
+Proof. reflexivity. Qed.
+
+Lemma qh_scan_mono m b len : forall fuel off ct ce h o' ct' ce',
+  qh_scan fuel m b len off ct ce = Ok (h, o', ct', ce') -> h <> 0 -> fle off ct -> fle off ce ->
+  off <= h /\ fle h ct' /\ fle h ce'.
+Proof.
+  induction fuel as [|fuel IH]; intros off ct ce h o' ct' ce' E Hh Hct Hce; [discriminate|].
+  rewrite qh_scan_S in E.
+  assert (Up : forall off1 f, off <= off1 -> fle off f -> fle off1 f) by (intros off1 f H1 H2 Hn; specialize (H2 Hn); lia).
+  assert (Mono : forall off1 c1 c2, off <= off1 -> fle off c1 -> fle off c2 ->
+            qh_scan fuel m b len off1 c1 c2 = Ok (h, o', ct', ce') -> off <= h /\ fle h ct' /\ fle h ce').
+  { intros off1 c1 c2 H1 H2 H3 E1. destruct (IH off1 c1 c2 h o' ct' ce' E1 Hh (Up _ _ H1 H2) (Up _ _ H1 H3)) as (A & B & C). repeat split; auto. lia. }
+  destruct (Nat.ltb off len); [|inversion E; subst; contradiction].
+  destruct (rd m (b + off)) as [c| |]; cbn [bind] in E; try discriminate.
+  destruct (N.eqb c CR).
+  { cbv zeta in E.
+    destruct (if Nat.ltb (S off) len then do c2 <- rd m (b + S off); Ok (if N.eqb c2 LF then S (S off) else S off) else Ok (S off)) as [off1| |] eqn:Eo; cbn [bind] in E; try discriminate.
+    assert (Ho1 : off < off1).
+    { destruct (Nat.ltb (S off) len); [|inversion Eo; lia]. destruct (rd m (b + S off)); cbn [bind] in Eo; try discriminate.
+      destruct (N.eqb a LF); inversion Eo; lia. }
+    destruct (Nat.eqb off1 len); [apply (Mono off1 ct ce); auto; lia|].
+    destruct (rd m (b + off1)) as [c3| |]; cbn [bind] in E; try discriminate.
+    destruct (is_eol c3); [|apply (Mono off1 ct ce); auto; lia].
+    inversion E; subst. repeat split; [lia|apply Up; auto; lia|apply Up; auto; lia]. }
+  destruct (N.eqb c LF).
+  { cbv zeta in E. destruct (Nat.eqb (S off) len); [apply (Mono (S off) ct ce); auto|].
+    destruct (rd m (b + S off)) as [c3| |]; cbn [bind] in E; try discriminate.
+    destruct (is_eol c3); [|apply (Mono (S off) ct ce); auto].
+    inversion E; subst. repeat split; [lia|apply Up; auto|apply Up; auto]. }
+  pose proof (skipline_ge m b len (S len) (S off)) as Hsk. cbn [bind] in Hsk.
+  match type of E with context [bind ?sk (fun off1 => qh_scan fuel m b len off1 (fst ct, 0) ce)] => set (skip := sk) in E, Hsk end.
+  cbv zeta in E.
+  assert (D : forall c1 c2, fle off c1 -> fle off c2 -> (do off1 <- skip; qh_scan fuel m b len off1 c1 c2) = Ok (h, o', ct', ce') -> off <= h /\ fle h ct' /\ fle h ce').
+  { intros c1 c2 H1 H2 E1. destruct skip as [off1| |]; cbn [bind] in E1; try discriminate.
+    specialize (Hsk off1 eq_refl). apply (Mono off1 c1 c2); auto; lia. }
+  clearbody skip.
+  assert (Z : forall s, fle off (s, 0)) by (intros s F; cbn in F; contradiction).
+  destruct (N.eqb c 99 || N.eqb c 67); [|apply (D ct ce); auto].
+  match type of E with context [bind ?x _] => destruct x as [isct| |]; cbn [bind] in E; try discriminate end.
+  destruct isct.
+  - destruct (getfieldlen m (b + off) (len - off)) as [fl| |]; cbn [bind] in E; try discriminate.
+    destruct (Nat.eqb fl 0); cbn [negb] in E; [apply (D (fst ct, 0) ce); auto|].
+    destruct (Nat.ltb_spec fl 2); [discriminate|].
+    apply (Mono (off + fl - 2) (off, fl) ce); auto; [lia|intros _; cbn; lia].
+  - match type of E with context [bind ?x _] => destruct x as [iscte| |]; cbn [bind] in E; try discriminate end.
+    destruct iscte; [|apply (D ct ce); auto].
+    destruct (getfieldlen m (b + off) (len - off)) as [fl| |]; cbn [bind] in E; try discriminate.
+    destruct (Nat.eqb fl 0); cbn [negb] in E; [apply (D ct (fst ce, 0)); auto|].
+    destruct (Nat.ltb_spec fl 2); [discriminate|].
+    apply (Mono (off + fl - 2) ct (off, fl)); auto; [lia|intros _; cbn; lia].
+Qed.
